@@ -140,3 +140,88 @@ class PathEnum:
             for e, s in states:
                 res.add(s)
         return states
+
+
+def fstring_text(n: ast.AST, hole: str = "\x00") -> str | None:
+    """text of a string constant / f-string with every replacement field turned into `hole`"""
+    if isinstance(n, ast.Constant) and isinstance(n.value, str):
+        return n.value
+    if isinstance(n, ast.JoinedStr):
+        out = []
+        for v in n.values:
+            if isinstance(v, ast.Constant):
+                out.append(str(v.value))
+            else:
+                out.append(hole)
+        return "".join(out)
+    return None
+
+
+class StringCollector:
+    """union of the string constants executed on the paths of a small method that are consistent with known boolean
+    atoms; follows self.<m>() and super().<m>() calls"""
+
+    def __init__(self, ix: PyIndex):
+        self.ix = ix
+
+    def collect(self, f: FuncInfo, cls: ClassInfo, env: dict[str, bool], depth: int = 0, defining: "ClassInfo | None" = None) -> set[str]:
+        out: set[str] = set()
+        self._block(f.node.body, cls, env, out, depth, f, defining or f.cls or cls)
+        return out
+
+    def _block(self, body: list[ast.stmt], cls: ClassInfo, env: dict[str, bool], out: set[str], depth: int, f: FuncInfo, defining: ClassInfo) -> bool:
+        """returns True when every consistent path through the block ends in return/raise"""
+        for st in body:
+            if isinstance(st, ast.Expr) and isinstance(st.value, ast.Constant):
+                continue
+            if isinstance(st, ast.If):
+                v = _eval(st.test, env)
+                self._expr(st.test, cls, env, out, depth, f, defining)
+                ra = rb = False
+                if v is not False:
+                    ra = self._block(st.body, cls, env, out, depth, f, defining)
+                if v is not True:
+                    rb = self._block(st.orelse, cls, env, out, depth, f, defining) if st.orelse else False
+                if (v is True and ra) or (v is False and rb) or (v is None and ra and rb):
+                    return True
+                continue
+            if isinstance(st, (ast.Return, ast.Raise)):
+                self._expr(st, cls, env, out, depth, f, defining)
+                return True
+            if isinstance(st, (ast.For, ast.While, ast.With, ast.Try)):
+                for fld in ("body", "orelse", "finalbody"):
+                    self._block(getattr(st, fld, []) or [], cls, env, out, depth, f, defining)
+                for h in getattr(st, "handlers", []) or []:
+                    self._block(h.body, cls, env, out, depth, f, defining)
+                for e in (getattr(st, "iter", None), getattr(st, "test", None)):
+                    if e is not None:
+                        self._expr(e, cls, env, out, depth, f, defining)
+                continue
+            self._expr(st, cls, env, out, depth, f, defining)
+        return False
+
+    def _expr(self, node: ast.AST, cls: ClassInfo, env: dict[str, bool], out: set[str], depth: int, f: FuncInfo, defining: ClassInfo) -> None:
+        inner_fs = {id(v) for n in ast.walk(node) if isinstance(n, ast.JoinedStr) for v in ast.walk(n) if v is not n}
+        for n in ast.walk(node):
+            if id(n) in inner_fs:
+                continue
+            t = fstring_text(n)
+            if t is not None:
+                out.add(t)
+            if isinstance(n, ast.Call) and isinstance(n.func, ast.Attribute) and depth < 4:
+                m = None
+                d2 = defining
+                if isinstance(n.func.value, ast.Name) and n.func.value.id == "self":
+                    m = self.ix.find_method(cls, n.func.attr)
+                    d2 = m.cls if m is not None and m.cls is not None else defining
+                elif isinstance(n.func.value, ast.Call) and isinstance(n.func.value.func, ast.Name) and n.func.value.func.id == "super":
+                    mro = self.ix.mro(cls)
+                    idx = next((i for i, k in enumerate(mro) if k is defining), -1)
+                    for k in mro[idx + 1:]:
+                        if n.func.attr in k.methods:
+                            m = k.methods[n.func.attr]
+                            d2 = k
+                            break
+                if m is not None and m is not f:
+                    e2 = {k: v for k, v in env.items() if k.startswith("self.")}
+                    out |= self.collect(m, cls, e2, depth + 1, d2)
